@@ -48,6 +48,7 @@ type c08Model struct {
 	fuzzy bool // two streams competed for the connection window: split unknown
 	gs    bool // the server has started a graceful shutdown (GOAWAY NO_ERROR): no new streams
 	s     [2]c08mStream
+	par   [2]int64 // RFC 7540 §5.3 parent the client last signalled for each stream (0 = root); prunes no-op PRI events only
 }
 
 func c08NewModel() *c08Model {
@@ -102,7 +103,16 @@ func (m *c08Model) enabled(ev c08srvEv) bool {
 	case "H":
 		// a stream opened after a graceful GOAWAY is beyond its last stream id:
 		// the server ignores it and the property says nothing about it
-		return !m.s[1].opened && !m.gs
+		if m.s[1].opened || m.gs {
+			return false
+		}
+		// H(dep): the new stream names an earlier stream as its parent (the
+		// parent may have finished already: both states of the parent node)
+		return ev.arg(0) == 0 || (ev.arg(0) == 1 && m.s[0].opened)
+	case "PRI":
+		// re-prioritise a live stream under the other stream, unless it is there already
+		s, d := ev.arg(0), ev.arg(1)
+		return s != d && m.s[c08Idx(s)].alive && m.s[c08Idx(d)].opened && m.par[c08Idx(s)] != d
 	case "GS":
 		// worth issuing once, while some response can still be in progress
 		return !m.gs && (m.s[0].alive || m.s[1].alive)
@@ -142,6 +152,15 @@ func (m *c08Model) apply(ev c08srvEv) {
 			i = 1
 		}
 		m.s[i] = c08mStream{opened: true, alive: true, idle: true, win: m.iw}
+		m.par[i] = ev.arg(0)
+	case "PRI":
+		// RFC 7540 §5.3.3: a stream made dependent on its own dependent first
+		// moves that dependent up to the stream's former parent
+		s, d := c08Idx(ev.arg(0)), c08Idx(ev.arg(1))
+		if m.par[d] == ev.arg(0) {
+			m.par[d] = m.par[s]
+		}
+		m.par[s] = ev.arg(1)
 	case "W":
 		s := &m.s[c08Idx(ev.arg(0))]
 		s.pend += ev.arg(1)
@@ -204,6 +223,21 @@ func c08Alphabet(iws, mfss, wsizes, wus []int64) []c08srvEv {
 		a = append(a, c08srvEv{K: "SETMFS", A: []int64{v}})
 	}
 	return a
+}
+
+// c08WithPrio extends an event menu with the RFC 7540 §5.3 priority signals
+// that build a dependency between the two streams: H(1) = the second stream's
+// HEADERS carry "depends on stream 1", PRI(s,d) = PRIORITY frame making s
+// depend on d. (Only the RFC 7540 priority schedulers act on them.)
+func c08WithPrio(a []c08srvEv) []c08srvEv {
+	var out []c08srvEv
+	for _, ev := range a {
+		out = append(out, ev)
+		if ev.K == "H" && len(ev.A) == 0 {
+			out = append(out, c08srvEv{K: "H", A: []int64{1}})
+		}
+	}
+	return append(out, c08srvEv{K: "PRI", A: []int64{3, 1}}, c08srvEv{K: "PRI", A: []int64{1, 3}})
 }
 
 func c08EvString(ev c08srvEv) string { return c08srvMk(ev.K, ev.A...) }
@@ -422,6 +456,8 @@ type c08Result struct {
 	gracefulSeen     bool // the server sent GOAWAY(NO_ERROR)
 	dataAfterGS      bool // DATA on a stream <= its last stream id after that GOAWAY
 	blockedInGS      bool // a response was blocked on flow control at quiescence during the graceful shutdown
+	budgetSplit      bool // a DATA frame shorter than MAX_FRAME_SIZE was followed, before the client did anything, by more DATA of the same stream: neither a window nor the frame size limit cut it, the write scheduler's byte budget did
+	budgetFull       bool // ... and later in the same burst a DATA frame of exactly MAX_FRAME_SIZE: the scheduler's budget had grown to (at least) the frame size limit
 }
 
 func c08RunCase(w *vx.W, t testing.TB, cs c08srvCase) (res c08Result, harnessErr string) {
@@ -440,7 +476,19 @@ func c08RunCase(w *vx.W, t testing.TB, cs c08srvCase) (res c08Result, harnessErr
 
 	step := func(ctx string) {
 		synctest.Wait()
+		var prevData *c08srvFrame // the previous DATA frame of this burst
+		burstSplit := false
 		for _, f := range env.drain() {
+			if f.Type == FrameData {
+				if prevData != nil && prevData.Stream == f.Stream && int64(prevData.Len) < mon.mfsAcked && f.Len > 0 {
+					res.budgetSplit, burstSplit = true, true
+				}
+				if burstSplit && int64(f.Len) == mon.mfsAcked {
+					res.budgetFull = true
+				}
+				f := f
+				prevData = &f
+			}
 			if f.Type == FrameSettings && !f.Ack {
 				// acknowledge the server's SETTINGS (not flow-control relevant)
 				env.writeErr(env.st.fr.WriteSettingsAck())
@@ -561,9 +609,27 @@ func c08RunCase(w *vx.W, t testing.TB, cs c08srvCase) (res c08Result, harnessErr
 				break
 			}
 			id := nextID
+			dep := uint32(ev.arg(0))
+			if dep >= id {
+				// (a stream depending on itself or on an idle stream: never issued)
+				applied = false
+				break
+			}
 			nextID += 2
 			mon.streams[id] = &c08monStream{id: id, born: mon.setsSent, base: mon.iwSent}
-			env.headers(id, true)
+			if dep == 0 {
+				env.headers(id, true)
+			} else {
+				env.headersDep(id, dep)
+			}
+		case "PRI":
+			id, dep := uint32(ev.arg(0)), uint32(ev.arg(1))
+			s := mon.streams[id]
+			if s == nil || !s.alive() || mon.streams[dep] == nil || id == dep {
+				applied = false
+				break
+			}
+			env.writeErr(env.st.fr.WritePriority(id, PriorityParam{StreamDep: dep, Weight: 15}))
 		case "W", "DONE":
 			id := uint32(ev.arg(0))
 			s, call := mon.streams[id], env.call(id)
@@ -699,6 +765,12 @@ func c08Check(c *vx.Ctx) func(w *vx.W, cs c08srvCase) {
 		case res.gracefulSeen:
 			w.Outcome("graceful-shutdown:nothing-pending")
 		}
+		switch {
+		case res.budgetFull:
+			w.Outcome("scheduler-byte-budget:grew-to-max-frame-size")
+		case res.budgetSplit:
+			w.Outcome("scheduler-byte-budget:split-below-max-frame-size")
+		}
 		if res.skipped > 0 {
 			w.Outcome("model-real-disagreement-skipped-event")
 		}
@@ -727,19 +799,43 @@ func TestVerif_C08(t *testing.T) {
 		seedBig := []string{"SETMFS(16777215)", "H", "WU(1,100000)", "WU(0,100000)"} // frame-size splitting territory
 		// graceful shutdown under way (GOAWAY NO_ERROR, last stream id 3) with both responses blocked on their stream windows
 		seedGS := []string{"SETIW(3)", "H", "H", "W(1,5)", "W(3,5)", "GS"}
+		// The write scheduler's byte budget (the n of FrameWriteRequest.Consume(n)) as a
+		// third limit next to the windows and MAX_FRAME_SIZE. Every scheduler passes
+		// MaxInt32 except the RFC 7540 priority scheduler with ThrottleOutOfOrderWrites
+		// ("7540t"), whose budget for a stream below a still-open parent starts at 1024
+		// and grows by 1024 per throttled frame of an uninterrupted burst. With client
+		// windows far above any response (as browsers configure them) that budget is the
+		// binding limit; response sizes on each side of it: below the initial budget,
+		// above it, and long enough (> 1024*(2+...+16) + 16384 = 154624 bytes) for the
+		// budget to pass the default MAX_FRAME_SIZE within one burst.
+		seedWide := []string{"SETIW(1048576)", "WU(0,1048576)"}
+		seedWideDep := []string{"SETIW(1048576)", "WU(0,1048576)", "H", "H(1)"} // stream 3 below the open stream 1
+		budget := []int64{1000, 5000, 200000}
+		wideAlpha := c08WithPrio(c08Alphabet([]int64{3, 65535}, mfss, budget, []int64{1, 100}))
 		var parts []part
 		if c.Quick() {
 			parts = []part{
 				{"9218/empty", c08srvCfg{Sched: "9218"}, nil, c08Alphabet(iws, mfss, small, wus), 4, 0},
+				{"7540t/wide-windows", c08srvCfg{Sched: "7540t"}, seedWide, wideAlpha, 3, 0},
 				{"rr/conn-nearly-full", c08srvCfg{Sched: "rr"}, seedConn, c08Alphabet(iws, nil, small, wus), 3, 0},
 				{"9218/two-streams-blocked", c08srvCfg{Sched: "9218"}, seedTwo, c08Alphabet(iws, nil, small, wus), 3, 0},
 				{"random/negative-window", c08srvCfg{Sched: "random"}, seedNeg, c08Alphabet(iws, nil, small, wus), 3, 0},
 				{"7540/big-writes", c08srvCfg{Sched: "7540"}, seedBig, c08Alphabet([]int64{0, 65535}, mfss, big, []int64{1, 100}), 3, 0},
 				{"9218/graceful-shutdown-blocked", c08srvCfg{Sched: "9218"}, seedGS, c08Alphabet(iws, nil, small, wus), 3, 0},
+				{"7540t/wide-windows-dependent-stream", c08srvCfg{Sched: "7540t"}, seedWideDep, wideAlpha, 3, 0},
 			}
 		} else {
 			// every scheduler at the quick bounds first, then the deeper levels
-			for _, sch := range []string{"9218", "rr", "7540", "random"} {
+			for _, sch := range []string{"9218", "rr", "7540", "7540t", "random"} {
+				// the priority signals are part of the menu where the scheduler acts on them
+				wa := c08Alphabet([]int64{3, 65535}, mfss, budget, []int64{1, 100})
+				if sch == "7540" || sch == "7540t" {
+					wa = wideAlpha
+				}
+				parts = append(parts,
+					part{sch + "/wide-windows", c08srvCfg{Sched: sch}, seedWide, wa, 3, 0},
+					part{sch + "/wide-windows-dependent-stream", c08srvCfg{Sched: sch}, seedWideDep, wa, 3, 0},
+				)
 				parts = append(parts,
 					part{sch + "/empty", c08srvCfg{Sched: sch}, nil, c08Alphabet(iws, mfss, small, wus), 4, 0},
 					part{sch + "/conn-nearly-full", c08srvCfg{Sched: sch}, seedConn, c08Alphabet(iws, nil, small, wus), 3, 0},
@@ -758,12 +854,19 @@ func TestVerif_C08(t *testing.T) {
 					part{sch + "/deep/graceful-shutdown-blocked", c08srvCfg{Sched: sch}, seedGS, c08Alphabet(iws, nil, small, wus), 4, 4},
 				)
 			}
+			for _, sch := range []string{"7540", "7540t"} {
+				parts = append(parts,
+					part{sch + "/deep/wide-windows", c08srvCfg{Sched: sch}, seedWide, wideAlpha, 4, 4},
+					part{sch + "/deep/wide-windows-dependent-stream", c08srvCfg{Sched: sch}, seedWideDep, wideAlpha, 4, 4},
+				)
+			}
 			parts = append(parts, part{"9218/deep/empty", c08srvCfg{Sched: "9218"}, nil, c08Alphabet(iws, mfss, small, wus), 5, 5})
 		}
-		c.Rule("EV: for each part (write scheduler x seed prefix) every event sequence of depth 1..D after the seed over the menu {H (<=2 GET streams), handler Write(n)+Flush, handler return, WINDOW_UPDATE(conn|stream, k), SETTINGS INITIAL_WINDOW_SIZE / MAX_FRAME_SIZE, RST_STREAM, GS = the server starts a graceful shutdown (serverConn.startGracefulShutdown, what http.Server.Shutdown triggers: GOAWAY(NO_ERROR, last stream id))}, pruned by a predictive model (events on streams that are not open or whose handler is blocked are not issued; GS at most once and only while a stream is open; no H after GS) and decided on the real state at run time; each sequence runs on a fresh real http2.Server in its own synctest bubble; after every event: quiescence, drain all frames, RFC 7540 §6.9 window accounting on every DATA frame, frame length vs MAX_FRAME_SIZE, progress at quiescence, white-box sc.flow/st.flow == monitor; after a graceful GOAWAY(NO_ERROR) all of these stay in force for every stream <= its last stream id (the older stream and the last one itself), only a GOAWAY with an error code ends a case. non-trivial = the server emitted at least one DATA frame; states = explored event histories (stateless search), transitions = events applied to the real server and checked at quiescence, traces = histories executed to their end")
+		c.Rule("EV: for each part (write scheduler x seed prefix) every event sequence of depth 1..D after the seed over the menu {H (<=2 GET streams; H(1) = the second stream's HEADERS carry the RFC 7540 priority field 'depends on stream 1'), PRI(s,d) = PRIORITY frame making stream s depend on stream d (only in the wide-windows parts), handler Write(n)+Flush, handler return, WINDOW_UPDATE(conn|stream, k), SETTINGS INITIAL_WINDOW_SIZE / MAX_FRAME_SIZE, RST_STREAM, GS = the server starts a graceful shutdown (serverConn.startGracefulShutdown, what http.Server.Shutdown triggers: GOAWAY(NO_ERROR, last stream id))}, write schedulers: 9218 (package default), rr, random, 7540 (NewPriorityWriteScheduler(nil)) and 7540t = the RFC 7540 priority scheduler with ThrottleOutOfOrderWrites, the one configuration whose Pop gives FrameWriteRequest.Consume a byte budget other than MaxInt32 (1024, +1024 per throttled frame of a burst, for a stream below a still-open parent); the wide-windows parts start from INITIAL_WINDOW_SIZE=2^20 and a connection WINDOW_UPDATE of 2^20 so that this budget and MAX_FRAME_SIZE, not the windows, bound a frame, with Write sizes {1000, 5000, 200000} on each side of the initial budget and long enough for the budget to outgrow the default MAX_FRAME_SIZE; pruned by a predictive model (events on streams that are not open or whose handler is blocked are not issued; H(1) only for the second stream; PRI only on a live stream and only if it changes the signalled parent; GS at most once and only while a stream is open; no H after GS) and decided on the real state at run time; each sequence runs on a fresh real http2.Server in its own synctest bubble; after every event: quiescence, drain all frames, RFC 7540 §6.9 window accounting on every DATA frame, frame length vs MAX_FRAME_SIZE, progress at quiescence, white-box sc.flow/st.flow == monitor; after a graceful GOAWAY(NO_ERROR) all of these stay in force for every stream <= its last stream id (the older stream and the last one itself), only a GOAWAY with an error code ends a case. non-trivial = the server emitted at least one DATA frame; states = explored event histories (stateless search), transitions = events applied to the real server and checked at quiescence, traces = histories executed to their end")
 		c.Assume("interleavings are explored at event granularity (one client/handler event, then run to quiescence); scheduling inside a step is Go's (L2)")
 		c.Assume("after a WINDOW_UPDATE/SETTINGS that overflows a window the client's view of that window is undefined; the monitor keeps the old value and requires the FLOW_CONTROL_ERROR the RFC mandates")
 		c.Assume("graceful shutdown: streams above the GOAWAY's last stream id are not opened (the server ignores them; outside the property); a window overflow after the graceful GOAWAY ends the case without requiring a second GOAWAY carrying FLOW_CONTROL_ERROR (a stream-window overflow must still be answered with RST_STREAM); the GOAWAY's last stream id itself is not judged")
+		c.Assume("priority signals: only the dependency between the two streams (default weight, non-exclusive) is varied, through the HEADERS priority field of the second stream or a PRIORITY frame; weights, the exclusive flag, idle-stream grouping nodes and PriorityWriteSchedulerConfig values other than the documented defaults (+ throttling) are not explored; a user-supplied WriteScheduler implementation is outside the property")
 		c.Assume("progress is checked only as: at quiescence no live stream has flushed handler bytes off the wire while both its windows are positive (L4)")
 		c08Determinism(c, func(w *vx.W, t testing.TB) ([]string, string) {
 			res, herr := c08RunCase(w, t, c08srvCase{Cfg: c08srvCfg{Sched: "9218"}, Evs: []string{"SETIW(3)", "H", "H", "W(1,5)", "W(3,20)", "WU(1,4)", "SETIW(10)", "DONE(1)", "RST(3)"}})
